@@ -306,6 +306,45 @@ func execOp(line string) string {
 		}
 		s := groupsig.RecoverGroupSignature(m, k)
 		return "ok " + sigTok(s)
+	case "gen":
+		// gen <k> <js|-> <id> <sig> ... : feed model.GroupSignGenerator in this order
+		if len(w) < 3 || (len(w)-3)%2 != 0 {
+			return "bad-op"
+		}
+		k, ok := tokDec(w[1])
+		if !ok {
+			return "bad-op"
+		}
+		if _, ok := tokDecs(w[2]); !ok {
+			return "bad-op"
+		}
+		type arrival struct {
+			id  groupsig.ID
+			sig groupsig.Signature
+		}
+		var arrs []arrival
+		for i := 3; i < len(w); i += 2 {
+			x, ok := tokNat(w[i])
+			sb, err := hx.UnHex(w[i+1])
+			if !ok || err != nil || x.Cmp(two256) >= 0 {
+				return "bad-op"
+			}
+			arrs = append(arrs, arrival{idOf(x), *groupsig.DeserializeSign(sb)})
+		}
+		gsg := model.NewGroupSignGenerator(k)
+		flags := make([]string, 0)
+		b2 := func(b bool) string {
+			if b {
+				return "1"
+			}
+			return "0"
+		}
+		for _, a := range arrs {
+			add, gen := gsg.AddWitnessSign(a.id, a.sig)
+			flags = append(flags, b2(add)+b2(gen))
+		}
+		gs := gsg.GetGroupSign()
+		return strings.Join(flags, ",") + " " + sigTok(&gs)
 	case "dkg":
 		return execDkg(w, nil)
 	}
@@ -861,6 +900,53 @@ func (g *gen) genRecover(n int) {
 	}
 }
 
+// arrival sequences for GroupSignGenerator: honest shares, repeated senders, late arrivals
+func (g *gen) genSignGen(n int) {
+	for i := 0; i < n; i++ {
+		k := g.r.Pick(1, 2, 3, 3, 4, 6)
+		nn := k + g.r.Intn(4)
+		cl := []string{"small", "hash", "hash", "wrap", "zero", "collide"}[g.r.Intn(6)]
+		ids := g.idSet(nn, cl)
+		sigs, _ := g.honest(k, ids, g.point("hash"))
+		var sid []*big.Int
+		var ssig []string
+		kind := "honest"
+		for j := 0; j < nn; j++ {
+			sid = append(sid, ids[j])
+			ssig = append(ssig, sigs[j])
+			if g.r.Chance(1, 4) { // the same sender again (possibly with another payload)
+				t := g.r.Intn(j + 1)
+				sid = append(sid, ids[t])
+				if g.r.Bool() {
+					ssig = append(ssig, sigs[t])
+				} else {
+					ssig = append(ssig, hx.Hex(g.point("mult")))
+				}
+				kind = "honest+repeats"
+			}
+		}
+		switch g.r.Intn(8) {
+		case 0: // a nil signature among the first k: recovery panics
+			ssig[g.r.Intn(k)] = hx.Hex(g.r.Bytes(g.r.Pick(0, 5)))
+			kind = "nil-sig"
+		case 1: // fewer than k arrivals: never generated
+			if k > 1 {
+				sid, ssig = sid[:k-1], ssig[:k-1]
+				kind = "short"
+			}
+		case 2: // arbitrary on-curve points
+			for j := range ssig {
+				ssig[j] = hx.Hex(g.point([]string{"mult", "hash", "gen", "inf"}[g.r.Intn(4)]))
+			}
+			kind = "arbitrary"
+		}
+		g.count("gen." + kind + " ids=" + cl)
+		g.emit(strings.TrimSpace("gen " + strconv.Itoa(k) + " - " + interleave(sid, ssig)))
+	}
+	g.emit("gen 0 -")
+	g.emit("gen 0 - 01 " + hx.Hex(genBytes))
+}
+
 func collides(ids []*big.Int) bool {
 	for i := range ids {
 		for j := 0; j < i; j++ {
@@ -1319,6 +1405,7 @@ func main() {
 	g.genLagrange(25 * scale)
 	g.genG1(60 * scale)
 	g.genRecover(40 * scale)
+	g.genSignGen(30 * scale)
 	min, max := model.Param.GroupMemberMin, model.Param.GroupMemberMax
 	if thorough {
 		var sizes []int
